@@ -805,6 +805,15 @@ pub fn gen_invalid_instance(rng: &mut Rng, schema: &Value, defs: &Defs) -> Optio
 }
 
 fn gen_invalid_instance_inner(rng: &mut Rng, schema: &Value, defs: &Defs) -> Option<Value> {
+    // a fixed-size array: the empty list (the implicit default of a growable list)
+    // is a wrong length here
+    {
+        let s = deref_schema(schema, defs, 0);
+        let fixed = s.get("type") == Some(&json!("array")) && s.get("minItems").is_some() && s.get("minItems") == s.get("maxItems") && s.get("minItems").and_then(|m| m.as_u64()).unwrap_or(0) >= 1;
+        if fixed && rng.chance(1, 3) {
+            return Some(json!([]));
+        }
+    }
     let valid = gen_instance(rng, schema, defs, 0)?;
     let candidates: Vec<Value> = match &valid {
         Value::Bool(_) => vec![json!("yes"), json!(1), json!(null)],
